@@ -91,6 +91,9 @@ pub mod prelude {
 #[cfg(kani)]
 mod kani_verif;
 
+#[cfg(feature = "verif-hooks")]
+pub mod verif_hooks;
+
 #[cfg(feature = "python")]
 pub mod python;
 
